@@ -339,6 +339,12 @@ def classify_binding(name, r, scope, depth, seen):
         return classify(init, scope, depth + 1, seen)
     if how == "for":
         it, path = r[1], r[2]
+        it0 = sir.strip_ref(it)
+        while it0.get("k") == "mcall" and it0["m"] in ("iter", "into_iter", "copied", "cloned") and not it0["args"]:
+            it0 = sir.strip_ref(it0["recv"])
+        if it0.get("k") == "array" and it0.get("elems") and not path:
+            # `for table in ["G", "R"]`: the loop variable is one of the listed expressions
+            return join([classify(x_, scope, depth + 1, seen) for x_ in it0["elems"]])
         return classify_path_binding(it, path, scope, depth, seen, loop=True)
     if how == "match":
         return classify_path_binding(r[1], r[2], scope, depth, seen)
@@ -506,6 +512,44 @@ def quote_state(pieces):
     return out
 
 
+def display_impl_class(orig, ty, all_fns, depth=0):
+    """A hole whose type is a type of the crate with its own `Display` impl in the emitter files prints what that impl writes: the
+    fragments of its `write!`s, whose holes are classified like any other hole (in the scope of `fmt`).  None if `ty` has no such impl."""
+    if not ty or depth > 2:
+        return None
+    base = re.sub(r"<.*", "", ty).split("::")[-1]
+    for f in orig["files"]:
+        rel = f["path"].split("glass-easel-template-compiler/src/")[-1]
+        if rel not in emit.EMITTER_FILES:
+            continue
+        for fn, is_test, impl_ty, trait in emit._fns_of_file(f):
+            if is_test or not fn.get("body") or fn["name"] != "fmt" or not trait or not trait.endswith("Display"):
+                continue
+            if re.sub(r"<.*", "", str(impl_ty or "")).split("::")[-1] != base:
+                continue
+            fn["_impl"] = impl_ty
+            sc = FnScope(fn, all_fns)
+            sc.all_fns_scopes = {}
+            cs = []
+            n_w = 0
+            for n in sir.walk(fn["body"], into_items=True):
+                if n.get("k") == "mac" and n["name"] in emit.FMT_MACROS:
+                    fa = sir.format_args_of(n, resolve_consts=False)
+                    if not fa:
+                        continue
+                    n_w += 1
+                    for pc in fa[0]:
+                        if pc[0] == "hole":
+                            cs.append(classify(pc[1], sc))
+            if n_w == 0:
+                return None
+            bad = [c for c in cs if not c.ok()]
+            if bad:
+                return Cls("unsafe", "`Display` impl of %s writes %s" % (base, bad[0].why))
+            return Cls("code", "`Display` impl of %s: %d write(s) of literal fragments and %d classified hole(s)" % (base, n_w, len(cs)))
+    return None
+
+
 def holes_rule(ctx):
     ob = ctx.ob
     obs = []
@@ -573,6 +617,8 @@ def holes_rule(ctx):
                 c = Cls("safe", "integer/bool (%s)" % ty)
             elif ty == "f64" or ty == "f32":
                 c = Cls("unsafe", "float displayed directly (see C02.float)")
+            elif ty and "::" in ty and not STRINGY.match(ty) and display_impl_class(orig, ty, all_fns) is not None:
+                c = display_impl_class(orig, ty, all_fns)
             else:
                 c = classify(h[1], sc)
                 if ty and not STRINGY.match(ty) and c.ok() and c.kind == "safe" and "literal" not in c.why and "identifier" not in c.why and "integer" not in c.why:
